@@ -76,12 +76,12 @@ func reg(pkg, name, spec, res string, goFn func(a A) []interface{}) *fn {
 	return f
 }
 
-func (f *fn) T(tmpl string) *fn          { f.tmpl = tmpl; return f }
-func (f *fn) Imp(pkgs ...string) *fn     { f.imports = append(f.imports, pkgs...); return f }
-func (f *fn) Pre(names ...string) *fn    { f.prelude = append(f.prelude, names...); return f }
-func (f *fn) Order(o ...int) *fn         { f.order = o; return f }
-func (f *fn) Dom(d func(a A) bool) *fn   { f.domain = d; return f }
-func R(v ...interface{}) []interface{}   { return v }
+func (f *fn) T(tmpl string) *fn        { f.tmpl = tmpl; return f }
+func (f *fn) Imp(pkgs ...string) *fn   { f.imports = append(f.imports, pkgs...); return f }
+func (f *fn) Pre(names ...string) *fn  { f.prelude = append(f.prelude, names...); return f }
+func (f *fn) Order(o ...int) *fn       { f.order = o; return f }
+func (f *fn) Dom(d func(a A) bool) *fn { f.domain = d; return f }
+func R(v ...interface{}) []interface{} { return v }
 
 var collectMode = os.Getenv("VERIF_C14_COLLECT") != ""
 
